@@ -9,6 +9,7 @@ BASE['c.stone'] = '''namespace c
     "First paragraph of the namespace doc."
 
 import a
+import b
 
 annotation_type Zeta
     "an annotation type"
@@ -32,6 +33,9 @@ struct Abc extends Zed
 union Mid
     m1
     m2 Abc
+
+struct UsesB
+    o b.Other?
 
 alias Later = List(Abc)
 alias Early = Later
@@ -138,7 +142,7 @@ def signature(api):
     out = []
     for nsname, ns in api.namespaces.items():
         out.append(('namespace', nsname, ns.doc))
-        out.append(('imports', sorted(n.name for n in ns.get_imported_namespaces())))
+        out.append(('imports', [n.name for n in ns.get_imported_namespaces()]))
         for r in ns.routes:
             out.append(('route', r.name, r.version, _type_sig(r.arg_data_type), _type_sig(r.result_data_type),
                         _type_sig(r.error_data_type), r.doc, bool(r.deprecated), sorted((k, repr(v)) for k, v in r.attrs.items())))
